@@ -39,12 +39,13 @@ CONSTANTS MaxBr, MaxRep, MaxTerm,   \* shape bounds
           NS, NB,                  \* scalar variables, bases
           MaxTerms,                \* bound on the total number of terms of a tree
           Mode,                    \* "sat": tree x choice x falsification; "mut": tree x choice x tampering
-          Wraps                    \* subset of {"min", "full"}: elide / keep trivial Or and And nodes
+          Wraps,                   \* subset of {"min", "full"}: elide / keep trivial Or and And nodes
+          Faults                   \* subset of 0..3: the transport of the interactive protocol fails at that round (0 = never)
 
-VARIABLES phase, tree, choice, wrap, fals, mut, hist,
+VARIABLES phase, tree, choice, wrap, fals, mut, fault, hist,
           ms, mb, nt      \* bookkeeping of the canonical construction: largest scalar variable / base used, number of terms
-vars == <<phase, tree, choice, wrap, fals, mut, hist, ms, mb, nt>>
-View == <<phase, tree, choice, wrap, fals, mut>>
+vars == <<phase, tree, choice, wrap, fals, mut, fault, hist, ms, mb, nt>>
+View == <<phase, tree, choice, wrap, fals, mut, fault>>
 
 Max2(a, b) == IF a > b THEN a ELSE b
 NBr       == Len(tree)
@@ -84,11 +85,15 @@ Must == IF ~BranchTrue(choice) THEN "rej"
 \* predicate is the prover's with the last And-term left out - a predicate IMPLIED by the proven one, whose
 \* transcript is a sub-transcript - is not required to reject there ("different predicate" is read as "a predicate
 \* not implied by the proven one"; trailing material of a message is ignored like trailing bytes of a proof).
-MustDen == IF Must = "rej" /\ BranchTrue(choice) /\ mut.k = "dropRep" THEN "free" ELSE Must
+\* Transport fault (every participant's Step fails at round fault in 1..3, i.e. before the third message is
+\* delivered): no proof was completely verified, so NO participant may report any other participant's proof as
+\* accepted - whether the prover was honest or not.
+MustDen == IF fault # 0 THEN "rej"
+           ELSE IF Must = "rej" /\ BranchTrue(choice) /\ mut.k = "dropRep" THEN "free" ELSE Must
 
 -----------------------------------------------------------------------------
 Init == /\ phase = "build" /\ tree = << << <<>> >> >> /\ choice = 0 /\ wrap = "min"
-        /\ fals = NoFals /\ mut = NoMut /\ hist = <<>> /\ ms = 0 /\ mb = 0 /\ nt = 0
+        /\ fals = NoFals /\ mut = NoMut /\ fault = 0 /\ hist = <<>> /\ ms = 0 /\ mb = 0 /\ nt = 0
 
 LastB == tree[NBr]
 LastR == LastB[Len(LastB)]
@@ -100,24 +105,24 @@ AddTerm ==
        /\ s <= ms + 1 /\ b <= mb + 1              \* canonical introduction order
        /\ tree' = SetLastRep(Append(LastR, [s |-> s, b |-> b]))
        /\ ms' = Max2(ms, s) /\ mb' = Max2(mb, b) /\ nt' = nt + 1
-  /\ UNCHANGED <<phase, choice, wrap, fals, mut, hist>>
+  /\ UNCHANGED <<phase, choice, wrap, fals, mut, fault, hist>>
 
 NewRep ==
   /\ phase = "build" /\ Len(LastR) > 0 /\ Len(LastB) < MaxRep
   /\ tree' = [tree EXCEPT ![NBr] = Append(@, <<>>)]
-  /\ UNCHANGED <<phase, choice, wrap, fals, mut, hist, ms, mb, nt>>
+  /\ UNCHANGED <<phase, choice, wrap, fals, mut, fault, hist, ms, mb, nt>>
 
 NewBranch ==
   /\ phase = "build" /\ Len(LastR) > 0 /\ NBr < MaxBr
   /\ tree' = Append(tree, << <<>> >>)
-  /\ UNCHANGED <<phase, choice, wrap, fals, mut, hist, ms, mb, nt>>
+  /\ UNCHANGED <<phase, choice, wrap, fals, mut, fault, hist, ms, mb, nt>>
 
 FalsMenu == {NoFals}
        \cup (IF Mode = "sat" THEN {[k |-> "s", i |-> v, j |-> 0] : v \in 1..MaxS}
                                   \cup {[k |-> "p", i |-> b, j |-> r] : b \in 1..NBr, r \in 1..MaxRep} ELSE {})
 
 ProveRec(its, npr) ==
-  [op |-> "prove", tree |-> tree, choice |-> choice', wrap |-> wrap', fals |-> fals',
+  [op |-> "prove", tree |-> tree, choice |-> choice', wrap |-> wrap', fals |-> fals', fault |-> fault',
    items |-> its, nprirand |-> npr,
    truth |-> [b \in 1..NBr |-> LET ff == fals' IN
                 \A r \in Reps(b) : ~(\/ ff.k = "s" /\ \E t \in 1..Len(tree[b][r]) : tree[b][r][t].s = ff.i
@@ -129,7 +134,8 @@ Prove ==
   /\ phase = "build" /\ Len(LastR) > 0
   /\ UNCHANGED <<tree, mut, ms, mb, nt>>
   /\ LET its == ItemKinds  npr == NPriRand IN      \* evaluated once per tree, not once per successor
-     \E c \in 1..NBr, w \in Wraps, f \in FalsMenu :
+     \E c \in 1..NBr, w \in Wraps, f \in FalsMenu, fl \in Faults :
+       /\ fault' = fl
        /\ (f.k = "p" => f.j <= Len(tree[f.i]))
        \* a falsified point is named once: by the first Rep carrying these terms
        /\ (f.k = "p" => \A b \in 1..NBr : \A r \in Reps(b) : tree[b][r] = tree[f.i][f.j] => <<f.i, f.j>> = <<b, r>> \/ b > f.i \/ (b = f.i /\ r > f.j))
@@ -143,6 +149,10 @@ MutMenu ==
   LET NI == Len(Items) IN
        {Mu("item", i, 0, 0) : i \in 1..NI}                          \* item i altered to a different value
   \cup {Mu("trunc", i, 0, 0) : i \in 0..(NI - 1)}                   \* only the first i items kept
+  \* byte-level truncation: inside item i, keeping 1 byte (b = 1) / all but 1 byte (b = 2) of it
+  \cup {Mu("truncIn", i, b, 0) : i \in 1..NI, b \in {1, 2}}
+  \* the proof loses its trailing bytes, all of which are 0x00 (a short read must not be taken for zero padding)
+  \cup {Mu("truncZeroTail", 0, 0, 0)}
   \cup {Mu("name", 0, 0, 0)}                                        \* other protocol name
   \* forged transcripts of a prover that knows NO secret (made by the harness with the library's item layout):
   \* every branch simulated with pre-chosen sub-challenges that do not sum to the real challenge / that sum to
@@ -169,7 +179,7 @@ MutOK(m) ==
 
 Tamper ==
   /\ phase = "tamper"
-  /\ UNCHANGED <<tree, choice, wrap, fals, ms, mb, nt>>
+  /\ UNCHANGED <<tree, choice, wrap, fals, fault, ms, mb, nt>>
   /\ \E m \in MutMenu \cup {NoMut} :
        /\ MutOK(m) /\ mut' = m
        /\ hist' = hist \o <<[op |-> "tamper", m |-> m], [op |-> "verify", must |-> Must', mustden |-> MustDen']>>
@@ -189,6 +199,7 @@ OtherBranchesIrrelevant == Judged /\ ~Tampered /\ BranchTrue(choice) => Must = "
 FalsLocal == Judged /\ fals.k = "s" => (BranchTrue(choice) <=> fals.i \notin VarsIn(choice))
 \* structural facts about the transcript are checked once per complete tree
 TreeDone == phase = "build" /\ Len(LastR) > 0
+FaultNeverAccepted == Judged /\ fault # 0 => MustDen = "rej"
 \* transcript size formula
 ItemCount == TreeDone => Len(Items) = NReps + (IF NBr > 1 THEN NBr ELSE 0)
                                    + LET f[b \in 0..NBr] == IF b = 0 THEN 0 ELSE f[b - 1] + Cardinality(VarsIn(b)) IN f[NBr]
